@@ -235,6 +235,46 @@ def run(ctx: Ctx) -> Result:
         if got != want:
             viol([('fresh interpreter',)] + [tuple(h) for h in hist], next((i for i, (a_, b_) in enumerate(zip(got, want)) if a_ != b_), 0) if isinstance(got, list) else 0,
                  f'active plugins per scope after each step: {want}', got)
+    # a plugin is handed the run's tape and may write to that run's plugin / contract tables (run_script builds them afresh for each
+    # run): the registries change only through add / remove / reset, and an identical later run behaves identically
+    def fresh_runlocal_writers(how):
+        code = ("import sys, json; sys.path.insert(0, %r)\nimport tapescript.functions as F\nfrom tapescript.parsing import compile_script\n"
+                "calls = []\nclass SC:\n    def abi(self, args): return [b'\\xff']\n"
+                "def once(t, s, c):\n    calls.append('once'); t.plugins['signature_extensions'] = []\n"
+                "def session(t, s, c):\n    calls.append('session'); t.contracts[b'session-contract'] = SC()\n"
+                "def snap(): return [{k: [f.__name__ for f in v] for k, v in F._plugins.items()}, sorted(k.hex() for k in F._contracts)]\n"
+                "how = %r\nout = {}\n"
+                "if how[0] == 'registry': F.add_signature_extension(session); F.add_signature_extension(once); kw = {}\n"
+                "else: kw = {'plugins': {'signature_extensions': [session, once]}}\n"
+                "out['before'] = snap()\n"
+                "msg = compile_script('GET_MESSAGE x00 POP0 GET_MESSAGE x00 POP0 PUSH d0 PUSH x' + b'session-contract'.hex() + ' INVOKE')\n"
+                "inv = compile_script('PUSH d0 PUSH x' + b'session-contract'.hex() + ' INVOKE')\n"
+                "runs = []\n"
+                "for i in range(2):\n"
+                "    calls.clear()\n"
+                "    try:\n"
+                "        if how[1] == 'auth': r = F.run_auth_scripts([compile_script('true'), msg], **kw)\n"
+                "        else: r = [x.hex() for x in F.run_script(msg, **kw)[1].list()]\n"
+                "    except BaseException as e: r = 'ERR:' + type(e).__name__\n"
+                "    runs.append([list(calls), r])\n"
+                "out['runs'] = runs; out['after'] = snap()\n"
+                "try: F.run_script(inv); out['later_invoke'] = 'ran'\n"
+                "except BaseException as e: out['later_invoke'] = 'ERR'\n"
+                "print(json.dumps(out))\n" % (REPO, list(how)))
+        r = subprocess.run([sys.executable, '-c', code], stdout=subprocess.PIPE, stderr=subprocess.PIPE, text=True, timeout=120)
+        try: return json.loads(r.stdout)
+        except Exception: return {'error': r.stderr[-400:]}
+    for how in (('registry', 'run'), ('registry', 'auth'), ('argument', 'run'), ('argument', 'auth')):
+        res.note_case(('fresh-runlocal-writers', how))
+        got = fresh_runlocal_writers(how)
+        hist_ = [('fresh interpreter',), ('plugins that write to their run\'s tape.plugins / tape.contracts', how[0]), ('run twice through', how[1])]
+        if 'error' in got: viol(hist_, 0, 'the probe runs', got['error']); continue
+        if got['before'] != got['after']:
+            viol(hist_, 2, f"registries unchanged by runs: {got['before']}", got['after'])
+        elif got['runs'][0] != got['runs'][1]:
+            viol(hist_, 2, f"the second identical run behaves like the first: {got['runs'][0]}", got['runs'][1])
+        elif got['later_invoke'] != 'ERR':
+            viol(hist_, 2, 'a contract a plugin put into an earlier run\'s table is unknown to a later run', got['later_invoke'])
     try:
         depth = ctx.n(4, 5)
         pl_letters = [('add_plugin', s, p) for s in scopes for p in plugs] + [('remove_plugin', s, p) for s in scopes for p in plugs] + [('reset_plugins', s) for s in scopes] + [('run',)]
